@@ -242,6 +242,32 @@ def zoo_prepare(tier, seed, variant, problems, features=None):
     shards = 8 if tier == "quick" else 16
     profile = "checked" if variant in ("checked", "ddesc") else "wrapping"
     target_dir = os.path.join(WORK, "target-zoo-" + variant)
+    # The target directory (and with it the compiled dependencies) is shared by the zoos of all (tier, seed). Cargo
+    # derives the artifact hash of a workspace member from its path *relative to the workspace*, so shard_3 of one zoo
+    # and shard_3 of another are the same artifact to it and a "fresh" one would be reused across zoos. When the zoo
+    # changes, the artifacts of the generated crates are dropped first.
+    import glob as _glob
+    import shutil as _shutil
+    marker = os.path.join(target_dir, "CURRENT_ZOO")
+    current = "%s-%d" % (tier, seed)
+    try:
+        with open(marker) as fh:
+            previous = fh.read().strip()
+    except OSError:
+        previous = None
+    if previous != current:
+        for pat in ("deps/libshard_*", "deps/shard_*", "deps/zoorun*", ".fingerprint/shard_*", ".fingerprint/zoorun*", "zoorun*", "incremental/shard_*", "incremental/zoorun*"):
+            for pth in _glob.glob(os.path.join(target_dir, profile, pat)):
+                if os.path.isdir(pth):
+                    _shutil.rmtree(pth, ignore_errors=True)
+                else:
+                    try:
+                        os.remove(pth)
+                    except OSError:
+                        pass
+        os.makedirs(target_dir, exist_ok=True)
+        with open(marker, "w") as fh:
+            fh.write(current)
     exclude = []
     excl_file = os.path.join(zoo, "excluded.json")
     for attempt in range(6):
@@ -253,15 +279,34 @@ def zoo_prepare(tier, seed, variant, problems, features=None):
             problems.append("zoogen failed: %s" % out[-600:].replace("\n", " | "))
             return None, None
         # 16 shard crates in parallel came within a few GB of the 62 GB here (one rustc was OOM-killed once): 10 jobs
-        cmd = ["cargo", "build", "--offline", "--profile", profile, "--target-dir", target_dir, "--message-format=short", "-j", "10"]
+        cmd = ["cargo", "build", "--offline", "--profile", profile, "--target-dir", target_dir, "--message-format=json", "-j", "10"]
         if features:
             cmd += ["-p", "zoorun", "--features", features]
-        rc, out, dt = run(cmd, cwd=zoo, timeout=7200)
+        rc, raw, dt = run(cmd, cwd=zoo, timeout=7200)
         log("[zoo] build %s attempt %d rc=%d %.1fs" % (variant, attempt, rc, dt))
+        # the target directory is shared by all (tier, seed) zoos; each zoo's binary has a name of its own (zoogen), so a
+        # fresh build of one zoo can never leave another zoo's executable behind under the expected name
+        executable, rendered = None, []
+        for line in raw.splitlines():
+            if not line.startswith("{"):
+                rendered.append(line)
+                continue
+            try:
+                m = json.loads(line)
+            except ValueError:
+                continue
+            if m.get("reason") == "compiler-artifact" and m.get("target", {}).get("name") == "zoorun_%s_%d" % (tier, seed) and m.get("executable"):
+                executable = m["executable"]
+            elif m.get("reason") == "compiler-message":
+                rendered.append(m["message"].get("rendered") or "")
+        out = "\n".join(rendered)
         if rc == 0:
+            if not executable:
+                problems.append("zoo build reported no executable for %s" % zoo)
+                return None, None
             with open(excl_file, "w") as fh:
                 json.dump(exclude, fh)
-            return os.path.join(target_dir, profile, "zoorun"), zoo
+            return executable, zoo
         # attribute compile errors to groups: paths look like shard_3/src/g_17/zm17x0.rs
         import re
         bad = sorted(set(re.findall(r"shard_\d+/src/((?:g|c)_\d+)/", out)))
